@@ -664,6 +664,7 @@ where
         // during the current revision and thus obtained an `&` reference to those fields
         // that is still live.
 
+        let last_updated_at_for_guard;
         {
             // SAFETY: `updated_at` is never exclusively borrowed, so borrowing it is sound
             let last_updated_at = unsafe { (*data_raw).updated_at.load() };
@@ -671,6 +672,7 @@ where
                 last_updated_at.is_some(),
                 "two concurrent writers to {id:?}, should not be possible"
             );
+            last_updated_at_for_guard = last_updated_at;
 
             // The value is already read-locked, but we can reuse it safely as per above.
             if last_updated_at == Some(zalsa.current_revision()) {
@@ -701,6 +703,19 @@ where
                 );
             }
         }
+
+        // `update_fields` runs user code (`PartialEq`), which may panic. Release the write lock
+        // again in that case, or the struct would stay locked forever.
+        struct UnlockOnUnwind<'a>(&'a OptionalAtomicRevision, Option<Revision>);
+        impl Drop for UnlockOnUnwind<'_> {
+            fn drop(&mut self) {
+                if crate::sync::thread::panicking() {
+                    self.0.swap(self.1);
+                }
+            }
+        }
+        // SAFETY: `updated_at` is never exclusively borrowed, so borrowing it is sound
+        let _unlock_on_unwind = UnlockOnUnwind(unsafe { &(*data_raw).updated_at }, last_updated_at_for_guard);
 
         // SAFETY: We have claimed mutable access by swapping `None` into
         // `updated_at`, so the retained fields are exclusively borrowed.
